@@ -189,15 +189,29 @@ func c15Definitions(c *core.Ctx, cg *callers) {
 		c.Ob("C15-R2", "UNRESOLVED:protected-types", token.NoPos, false, fmt.Sprintf("only %d definition types derived", len(names)))
 	}
 	fa := newFreshAnalysis(p, prot)
-	for _, fd := range p.AllFuncs() {
-		if cg.initOnly(fd.Obj) {
-			continue
+	// rounds: a document map field found to receive a shared map in one round
+	// is read as possibly shared everywhere in the next
+	for round := 0; round < 4; round++ {
+		fa.reset()
+		for _, fd := range p.AllFuncs() {
+			if cg.initOnly(fd.Obj) {
+				continue
+			}
+			if strings.HasSuffix(p.RelFile(fd.Decl.Pos()), "mage.go") {
+				continue
+			}
+			fa.summary(fd.Obj)
 		}
-		if strings.HasSuffix(p.RelFile(fd.Decl.Pos()), "mage.go") {
-			continue
+		if !fa.newTaint {
+			break
 		}
-		fa.summary(fd.Obj)
 	}
+	var taints []string
+	for f, why := range fa.taint {
+		taints = append(taints, fieldName(f)+" (declared at "+p.Rel(f.Pos())+"): "+why)
+	}
+	sort.Strings(taints)
+	c.Extra("document_map_fields_that_may_hold_a_shared_map", taints)
 	c.Extra("mutation_sites_on_definition_types", fa.sites)
 	seen := map[string]bool{}
 	for _, v := range fa.viol {
@@ -210,6 +224,9 @@ func c15Definitions(c *core.Ctx, cg *callers) {
 		}
 		seen[key+p.Rel(v.pos)] = true
 		msg := "a definition object that may be shared (registered regime/addon/catalogue data) is mutated at run time: " + v.what
+		if why := fa.taintOf(v); why != "" {
+			msg += "; this field may hold a shared map: " + why
+		}
 		if v.path != "" {
 			msg += "; " + v.path
 		}
@@ -231,6 +248,13 @@ func c15Definitions(c *core.Ctx, cg *callers) {
 	if fa.sites < 5 {
 		c.Ob("C15-R2", "UNRESOLVED:mutation-sites", token.NoPos, false, fmt.Sprintf("only %d mutation sites on definition types found", fa.sites))
 	}
+}
+
+func fieldName(f *types.Var) string {
+	if f.Pkg() != nil {
+		return f.Pkg().Name() + "." + f.Name()
+	}
+	return f.Name()
 }
 
 func shortWhat(s string) string {
